@@ -7,7 +7,8 @@ from syslib import *
 from vlib import repo_bin
 
 def free_port():
-    s = socket.socket(); s.bind(('127.0.0.1', 0)); p = s.getsockname()[1]; s.close(); return p
+    from syslib import port_for
+    return port_for('sched%f' % time.time(), 3)
 
 def run(root, tag, scenarios=('scheduler_down', 'no_capacity', 'wrong_token')):
     fails = []; samples = []; n = 0
